@@ -59,7 +59,7 @@ func c12Gen(r *vhRng) string {
 		}
 	}
 	if len(q.queue) == 0 {
-		t := c11GenTopTy(r)
+		t := c11GenTopTy(r, false)
 		ts := t.String()
 		add := func(b []byte) {
 			if c12TooCostly(t, b) {
